@@ -169,7 +169,7 @@ package jsonapi
 //@ flag frame-per-return
 //@ flag post-per-return
 //@ inline Type.New
-//@ props C05 C13 C12
+//@ props C05 C13 C12 C06
 //@ requires schema: schema != nil && allTypesWf(schema) && uniqueNames(schema) && noIDField(schema) && softSchema(schema)
 //@ modifies new[SoftResource], new[Type], new[map[string]any], new[map[string]Attr], new[map[string]Rel], new[time.Time], new[uint8], new[string], new[resourceSkeleton], new[map[string][]uint8], new[map[string]relationshipSkeleton], new[Identifier], new[[]Identifier], new[any], new[int], new[int8], new[int16], new[int32], new[int64], new[uint], new[uint16], new[uint32], new[uint64], new[bool], new[[]uint8]
 //@ ensures error-xor-result: (result1 != nil) == (result0 == nil)
